@@ -27,6 +27,13 @@ KINDS = ["ValueError", "KeyError", "ZeroDivisionError", "TypeError", "NameError"
 #                           errors are those of e (the Lean driver's reader drops the wrapper: the model has no frames);
 #                           what differs is the Python traceback - one more frame between the formula's own frame and
 #                           the next cells.  All kinds but "def" need an e that is one expression (`lambda_ok`).
+#  ("rg", rid, form)        read of a MODEL-LEVEL reference (a name every space resolves but no space owns): form 0 by
+#                           name, 1 `_space.r`, 2 through the other space (`Ch.r` / `_space.parent.r`), 3 `_model.r`,
+#                           4 through a longer path that ends in the child space (`_space.Ch.r` / `_space.parent.Ch.r`).
+#                           Implementation-only: the Lean model has no model-level references (execworld.impl_only)
+#  ("trx", a, catch, k, from)  try: a / except <catch> [as _e]: raise <KINDS[k]>('k') [from _e]  - exception TRANSLATION: a NEW
+#                           exception object replaces the callee's.  For the Lean model this is ("try", a, catch, ("raise", k))
+#                           (that is what `sexp` writes); `from` (0/1) only decides whether the source says `from _e`
 
 def sexp(e):
     t = e[0]
@@ -36,6 +43,10 @@ def sexp(e):
         return "N"
     if t in ("p", "rn", "ra", "raise"):
         return "(%s %d)" % (t, e[1])
+    if t == "rg":
+        return "(rg %d %d)" % (e[1], e[2])
+    if t == "trx":
+        return "(trx %s %s %d %d)" % (sexp(e[1]), e[2], e[3], e[4])
     if t in ("add", "sub", "mul", "lt"):
         return "(%s %s %s)" % (t, sexp(e[1]), sexp(e[2]))
     if t == "if":
@@ -74,6 +85,15 @@ def parse_sexp(text):
             v = int(toks[pos[0]])
             pos[0] += 2
             return (head, v)
+        if head == "rg":
+            v, f = int(toks[pos[0]]), int(toks[pos[0] + 1])
+            pos[0] += 3
+            return ("rg", v, f)
+        if head == "trx":
+            a = one()
+            c, k, fr = toks[pos[0]], int(toks[pos[0] + 1]), int(toks[pos[0] + 2])
+            pos[0] += 4
+            return ("trx", a, c, k, fr)
         if head in ("add", "sub", "mul", "lt", "tryfin"):
             a = one()
             b = one()
@@ -145,12 +165,39 @@ def subexprs(e):
         yield from subexprs(e[3])
     elif t == "via":
         yield from subexprs(e[2])
+    elif t == "trx":
+        yield from subexprs(e[1])
+
+
+def model_sexp(e):
+    """what the Lean driver is sent: a translation is a try whose handler raises"""
+    return sexp(lower(e))
+
+
+def lower(e):
+    """the expression in the vocabulary of the Lean model: ("trx", a, c, k, _) -> ("try", a, c, ("raise", k))"""
+    t = e[0]
+    if t == "trx":
+        return ("try", lower(e[1]), e[2], ("raise", e[3]))
+    if t in ("add", "sub", "mul", "lt", "tryfin"):
+        return (t, lower(e[1]), lower(e[2]))
+    if t == "if":
+        return ("if", lower(e[1]), lower(e[2]), lower(e[3]))
+    if t == "call":
+        return ("call", e[1], [lower(a) for a in e[2]])
+    if t == "callk":
+        return ("callk", e[1], [lower(a) for a in e[2]], [(i, lower(a)) for i, a in e[3]])
+    if t in ("try", "tryre"):
+        return (t, lower(e[1]), e[2], lower(e[3]))
+    if t == "via":
+        return ("via", e[1], lower(e[2]))
+    return e
 
 
 VIA_KINDS = ("gen", "comp", "lam", "map", "sorted", "def")
 VIA_EXPR_KINDS = ("gen", "comp", "lam", "map")      # rendered as ONE expression (usable inside a lambda formula too)
 
-TRY_KINDS = ("try", "tryre", "tryfin")
+TRY_KINDS = ("try", "tryre", "tryfin", "trx")
 
 
 def blocks_simple(e):
@@ -202,10 +249,24 @@ class Renderer:
     sexp of the call made on that line (for C17).
     """
 
-    def __init__(self, names, log_name=None, call_wrap=None):
+    def __init__(self, names, log_name=None, call_wrap=None, read_wrap=None):
         self.names = names
         self.log_name = log_name
         self.call_wrap = call_wrap
+        # read_wrap: name of a recording function every reference read goes through (`zr(kind, rid, form, value)`
+        # returns the value): the harness' own record of which references a formula read, and how
+        self.read_wrap = read_wrap
+
+    def read(self, e):
+        """python source of a reference read"""
+        t = e[0]
+        if t == "rg":
+            src = self.names["rg"](e[1], e[2])
+        else:
+            src = self.names[t](e[1])
+        if self.read_wrap:
+            return "%s('%s', %d, %d, %s)" % (self.read_wrap, t, e[1], e[2] if t == "rg" else -1, src)
+        return src
 
     def param_list(self, nparams, defaults):
         """`a0, a1=5`: the last len(defaults) parameters have default values"""
@@ -280,10 +341,8 @@ class Renderer:
             args = [self.lexpr(a) for a in e[2]] + ["a%d=%s" % (i, self.lexpr(a)) for i, a in e[3]]
             self.calls[1] = e[1]
             return "%s(%s)" % (f, ", ".join(args))
-        if t == "rn":
-            return self.names["rn"](e[1])
-        if t == "ra":
-            return self.names["ra"](e[1])
+        if t in ("rn", "ra", "rg"):
+            return self.read(e)
         if t == "raise" and e[1] in self.LAMBDA_RAISE:
             self.calls[1] = "raise"
             return self.LAMBDA_RAISE[e[1]]
@@ -371,13 +430,23 @@ class Renderer:
             ln = self.put(ind, "%s = %s(%s)" % (v, f, ", ".join(args)))
             self.calls[ln] = e[1]
             return v
-        if t == "rn":
+        if t in ("rn", "ra", "rg"):
             v = self.tmp()
-            self.put(ind, "%s = %s" % (v, self.names["rn"](e[1])))
+            self.put(ind, "%s = %s" % (v, self.read(e)))
             return v
-        if t == "ra":
+        if t == "trx":
+            # try: v = a / except K [as _e]: raise K2('k') [from _e]
             v = self.tmp()
-            self.put(ind, "%s = %s" % (v, self.names["ra"](e[1])))
+            self.put(ind, "try:")
+            a = self.emit(e[1], ind + 1)
+            self.put(ind + 1, "%s = %s" % (v, a))
+            c = e[2]
+            exc = {"all": "Exception", "deep": "DeepReferenceError", "noneret": "NoneReturnedError"}.get(c)
+            if exc is None:
+                exc = KINDS[int(c[1:])]
+            self.put(ind, "except %s%s:" % (exc, " as _e" if e[4] else ""))
+            ln = self.put(ind + 1, "raise %s('k%d')%s" % (KINDS[e[3]], e[3], " from _e" if e[4] else ""))
+            self.calls[ln] = "raise"
             return v
         if t == "raise":
             ln = self.put(ind, "raise %s('k%d')" % (KINDS[e[1]], e[1]))
@@ -452,7 +521,7 @@ class Gen:
 
     def __init__(self, rng, n_rn=2, n_ra=2, catch_all_p=0.15, raise_p=0.06, none_p=0.04,
                  fail_cell_p=0.0, handled_seq_p=0.0, lam_p=0.0, space_p=0.0, block_p=0.0, via_p=0.0,
-                 default_p=0.0):
+                 default_p=0.0, glob_p=0.0, trx_p=0.0, n_glob=2):
         self.rng = rng
         self.n_rn, self.n_ra = n_rn, n_ra
         self.catch_all_p, self.raise_p, self.none_p = catch_all_p, raise_p, none_p
@@ -479,13 +548,25 @@ class Gen:
         #                 spelling does not bind (unexpected keyword, two values for one parameter, a required
         #                 parameter left out)
         self.default_p = default_p
+        #  glob_p         a reference read goes to a MODEL-LEVEL reference (ids n_rn + n_ra ..), by name or through one of
+        #                 the attribute paths that resolve it (`("rg", id, form)`; implementation-only vocabulary)
+        #  trx_p          a try/except TRANSLATES the failure it handles: `except K: raise K2(..) [from e]` ("trx")
+        self.glob_p, self.trx_p, self.n_glob = glob_p, trx_p, n_glob
+        #  after_call_p   (with fail_cell_p) a failing cells first OBTAINS the value of a lower cells and raises then:
+        #                 the failed element had a completed precedent
+        self.after_call_p = 0.0
         self.defaults = {}
         self.cur_space = 0
         self.no_try = False     # set per program: no formula handles a failure (the regime of the C02 theorems)
         self.failing = []
 
+    def glob_read(self):
+        return ("rg", self.n_rn + self.n_ra + self.rng.randrange(self.n_glob), self.rng.choice([0, 0, 1, 1, 2, 2, 2, 4]))
+
     def any_read(self):
         """a read of any reference, spelled by name or by path whatever space it lives in"""
+        if self.glob_p and self.rng.random() < self.glob_p:
+            return self.glob_read()
         r = self.rng.randrange(self.n_rn + self.n_ra)
         same = (0 if r < self.n_rn else 1) == self.cur_space
         by_name = self.rng.random() < (0.55 if same else 0.06)
@@ -499,6 +580,8 @@ class Gen:
             return ("lit", self.rng.randint(-2, 5))
         if self.space_p and r < 0.93:
             return self.any_read()
+        if self.glob_p and r < 0.93 and self.rng.random() < self.glob_p:
+            return self.glob_read()
         if r < 0.80 and self.n_rn:
             return ("rn", self.rng.randrange(self.n_rn))
         if r < 0.93 and self.n_ra:
@@ -621,6 +704,10 @@ class Gen:
             return ("add", self.leaf(nparams), self.expr(cid, nparams, arities, depth - 1))
         if r < 0.95:
             c = "all" if self.rng.random() < self.catch_all_p else self.rng.choice(["k0", "k1", "k2", "k3", "noneret"])
+            if self.trx_p and self.rng.random() < self.trx_p:
+                # the failure is translated: a new exception object of another kind leaves the formula
+                return ("trx", self.expr(cid, nparams, arities, depth - 1), c, self.rng.choice([0, 1, 2, 3]),
+                        self.rng.randrange(2))
             return ("try", self.expr(cid, nparams, arities, depth - 1), c, self.expr(cid, nparams, arities, depth - 2))
         return self.leaf(nparams)
 
@@ -643,6 +730,12 @@ class Gen:
         """a formula that fails whatever the arguments: a raise, a call of such a cells, or a recursion that
         descends p0 levels and raises at the bottom"""
         kind = self.rng.choice([0, 0, 1, 1, 2, 3])
+        if self.after_call_p and cid > 0 and self.rng.random() < self.after_call_p:
+            call = self.mkcall(self.rng.randrange(cid), arities, lambda: self.leaf(nparams))
+            if nparams and self.rng.random() < 0.5:
+                # fails for some arguments only: a repair by a value edit of the precedent is possible
+                return ("if", ("lt", ("lit", 1), call), ("raise", kind), ("add", call, ("lit", 1)))
+            return ("add", call, ("raise", kind))
         r = self.rng.random()
         if self.failing and r < 0.4:
             j = self.rng.choice(self.failing)
@@ -664,6 +757,12 @@ class Gen:
                 j = self.rng.randrange(cid)
             call = self.mkcall(j, arities, lambda: self.leaf(nparams))
             c = "all" if self.rng.random() < 0.5 else self.rng.choice(["k0", "k1", "k2", "k3"])
+            if self.trx_p:
+                # (C05) no catch-all (a caught depth error is another matter), and the handler TRANSLATES: a default
+                # computed while a callee failed is C02's matter (no dependency on a failed callee is recorded)
+                c = self.rng.choice(["k0", "k1", "k2", "k3"])
+                tries.append(("trx", call, c, self.rng.choice([0, 1, 2, 3]), self.rng.randrange(2)))
+                continue
             tries.append(("try", call, c, self.leaf(nparams)))
         for t in reversed(tries):
             rest = ("add", t, rest)
